@@ -78,7 +78,7 @@ int main(int argc, char **argv) {
     ++run;
     size_t sz = vp::job_size();
     void *buf = std::malloc(sz);
-    std::memset(buf, 0xAA, sz);
+    std::memset(buf, 0xFF, sz);  // all-ones: NaN for float/double, -1 for int, not a valid bool
     vp::st() = vp::State();
     vp::Job *job = nullptr;
     std::string bookfault = "none";
